@@ -175,6 +175,35 @@ def oracle(case: dict):
             if after != before:
                 return ("read-writes", f"reading {target.relative_to(root)} changed the tree: {diff(before, after)}")
             return None
+        if op == "dump-rel":
+            # a dict that lives elsewhere (loaded from a file in another folder, or built before a change of directory) is
+            # dumped to a RELATIVE target: the requested target is <working directory>/<name>, and nothing else is touched
+            natives = [q for q, k in files if k == "native"]
+            src = natives[case["file"] % len(natives)] if natives else None
+            wd = root / case["cwd"]
+            wd.mkdir(parents=True, exist_ok=True)
+            name = case["name"]
+            try:
+                if src is not None and case["how"] == "loaded":
+                    sd = dictIO.SDict().load(src)
+                else:
+                    os.chdir(root / "d1")
+                    sd = dictIO.SDict({"a": 1, "b": {"c": 2}})
+                before = snap(root)
+                os.chdir(wd)
+                sd.dump(Path(name))
+            except Exception as e:  # noqa: BLE001
+                os.chdir(cwd)
+                return ("raises", f"dump to the relative target {name} raised {type(e).__name__}: {e}")
+            os.chdir(cwd)
+            after = snap(root)
+            created, deleted, changed = diff(before, after)
+            rel = os.path.normpath(os.path.join(case["cwd"], name))
+            touched = sorted(x for x in set(created) | set(changed) if after[x][0] == "f")
+            if deleted or touched != [rel]:
+                return ("write-touches-others", f"dump({name!r}) from working directory {case['cwd']!r} of a dict that lives in "
+                                                f"{src.parent.relative_to(root) if src is not None and case['how'] == 'loaded' else 'd1 (built there)'}: touched {touched}, deleted {deleted}; expected exactly {rel}")
+            return None
         if op == "load":
             try:
                 dictIO.SDict().load(target)
@@ -471,6 +500,8 @@ def run(ctx):
         for opts in ({}, {"includes": False}, {"order": True, "comments": False}, {"scope": ["nope"]}):
             cases.append({"op": "read", "seed": seed, "file": rng.randrange(8), "opts": opts})
         cases.append({"op": "load", "seed": seed, "file": rng.randrange(8)})
+        cases.append({"op": "dump-rel", "seed": seed, "file": rng.randrange(8), "how": rng.choice(["loaded", "built"]), "cwd": rng.choice([".", "d1/d2", "x1"]),
+                      "name": rng.choice(["relout", "out/copy.json", "k.dict", "file0"])})
         for fmt, where, mode in itertools.product(["native", "foam", "json", "xml"], ["existing", "new", "deep"], ["a", "w"]):
             if rng.random() < 0.25:
                 cases.append({"op": "write", "seed": seed, "file": 0, "fmt": fmt, "where": where, "mode": mode})
